@@ -374,6 +374,17 @@ def run_multisplice(ctx, case):
                "header with blocks %r wrapping keys %r (all decryptors supplied) was accepted" % (kinds_, pattern))
     if agree and pattern[0] == body and not accepted:
         o.viol("splice|control-rejected", "header with blocks %r that all wrap the body's key was rejected: %r" % (kinds_, r))
+    # the agreement of the blocks is a property of the header: it holds with MAC checking switched off as well
+    try:
+        r = Bec2File.read_file(io.StringIO(L.render_text([], binary)), D, False)
+        accepted_nomac = True
+    except Exception as e:
+        r = e
+        accepted_nomac = False
+    if not agree and accepted_nomac:
+        o.viol("splice|disagreeing-accepted|no-mac-check", "header with blocks %r wrapping keys %r was accepted when read without MAC checking" % (kinds_, pattern))
+    if agree and not accepted_nomac:
+        o.viol("splice|control-rejected|no-mac-check", "header with agreeing blocks %r was rejected when read without MAC checking: %r" % (kinds_, r))
     return o
 
 
@@ -421,6 +432,11 @@ def run_case(ctx, case):
     if decs == "both":
         if accepted:
             o.viol("splice|disagreeing-accepted", "file whose %s and %s blocks unwrap to different keys was accepted" % (a, b))
+        try:
+            Bec2File.read_file(io.StringIO(text), D, False)
+            o.viol("splice|disagreeing-accepted|no-mac-check", "file whose %s and %s blocks unwrap to different keys was accepted when read without MAC checking" % (a, b))
+        except Exception:
+            pass
         return o
     Kopen = Ka if decs == "first" else Kb
     should = Kbody == Kopen
